@@ -233,14 +233,14 @@ package gonum
 //@       (lwork >= max(1, n) || lwork == -1) && len(work) >= max(1, lwork) &&
 //@       (n == 0 || lwork == -1 || (ge(a, m, n, lda) && len(tau) == k))
 //@ panics iff !valid, before-writes
-//@ writes work[*] ; a[i*lda+j] for i in 0..m, j in 0..n if lwork != -1
+//@ writes work[i] for i in 0..1 ; work[i] for i in 0..len(work) if lwork != -1 ; a[i*lda+j] for i in 0..m, j in 0..n if lwork != -1
 
 //@ func Implementation.Dorglq props: C02 C07(safety)
 //@ valid m >= 0 && n >= m && 0 <= k && k <= m && lda >= max(1, n) &&
 //@       (lwork >= max(1, m) || lwork == -1) && len(work) >= max(1, lwork) &&
 //@       (m == 0 || lwork == -1 || (ge(a, m, n, lda) && len(tau) >= k))
 //@ panics iff !valid, before-writes
-//@ writes work[*] ; a[i*lda+j] for i in 0..m, j in 0..n if lwork != -1
+//@ writes work[i] for i in 0..1 ; work[i] for i in 0..len(work) if lwork != -1 ; a[i*lda+j] for i in 0..m, j in 0..n if lwork != -1
 
 // lwork >= max(1, n) for side == Left and max(1, m) for side == Right (reference
 // LAPACK; parts of the doc comments of Dormqr and Dormlq state it the other way round).
@@ -468,6 +468,9 @@ package gonum
 //@ floats: ieee
 //@ loop 5: invariant l <= lend && lend < n
 //@ loop 8: invariant l >= lend && l < n
+// eigenvalues come back in ascending order whenever success is reported (without vectors; the
+// budget-exhausted exit skipped the ordering step until the fix "Dsteqr orders the eigenvalues ...")
+//@ ensures compz == lapack.EVCompNone && result ==> forall(k, 1, n, !(d[k] < d[k-1]))
 
 //@ func Implementation.Dsterf props: C03 C07(safety)
 //@ valid n >= 0 && (n == 0 || (len(d) >= n && len(e) >= n-1))
@@ -704,3 +707,71 @@ package gonum
 // //@ writes a[r*lda+c] for r in 0..m, c in 0..n ; jpvt[k] for k in 0..n ; tau[k] for k in 0..nb ;
 // //@        vn1[k] for k in 0..n ; vn2[k] for k in 0..n ; auxv[k] for k in 0..nb ; f[r*ldf+c] for r in 0..n, c in 0..nb
 // //@ ensures 0 <= kb && kb <= nb
+
+// ---- eigenvalue / SVD family (C03), second part ------------------------------------------------
+
+//@ func Implementation.Dgebd2 props: C03 C07(safety)
+//@ valid m >= 0 && n >= 0 && lda >= max(1, n) &&
+//@       (min(m, n) == 0 || (ge(a, m, n, lda) && len(d) >= min(m, n) && len(e) >= min(m, n)-1 &&
+//@                           len(tauQ) >= min(m, n) && len(tauP) >= min(m, n) && len(work) >= max(m, n)))
+//@ panics iff !valid, before-writes
+//@ writes a[r*lda+c] for r in 0..m, c in 0..n ; d[t] for t in 0..min(m, n) ; e[t] for t in 0..min(m, n)-1 ;
+//@        tauQ[t] for t in 0..min(m, n) ; tauP[t] for t in 0..min(m, n) ; work[t] for t in 0..max(m, n)
+
+// z holds the qd array of 4*(n0+1) cells; i0 and n0 are the zero-based first and last index.
+
+//@ func Implementation.Dlasq5 Implementation.Dlasq6 props: C03 C07(safety)
+//@ valid i0 >= 0 && n0 >= 0 && len(z) >= 4*(n0+1) && (pp == 0 || pp == 1)
+//@ panics iff !valid, before-writes
+//@ writes z[t] for t in 4*i0..4*(n0+1)
+
+// Dlasq4 only reads z. It is called (by Dlasq3) for a segment of at least three indices; the routine does
+// not check that itself and faults on a shorter segment (e.g. n0 == 0 with dmin > 0 reads z[-2]).
+
+//@ func Implementation.Dlasq4 props: C03 C07(safety)
+//@ requires n0 >= i0+2
+//@ valid i0 >= 0 && n0 >= 0 && len(z) >= 4*(n0+1) && (pp == 0 || pp == 1)
+//@ panics iff !valid, before-writes
+//@ writes nothing
+
+// Dlahr2 is internal. requires: at least one column is reduced and the reduced columns lie inside the
+// matrix (reference: K < N); its only caller Dgehrd guarantees it. Without it the routine faults (n == 0)
+// or overwrites a cell of a (nb == 0), see the report. The return under "if n < 0" is dead code.
+
+//@ func Implementation.Dlahr2 props: C03 C07(safety)
+//@ option dead-return-ok
+//@ requires nb >= 1 && k+nb <= n
+//@ valid n >= 0 && k >= 0 && 0 <= nb && nb <= n && lda >= max(1, n-k+1) && ldt >= max(1, nb) && ldy >= max(1, nb) &&
+//@       ge(a, n, n-k+1, lda) && len(tau) >= nb && ge(t, nb, nb, ldt) && ge(y, n, nb, ldy)
+//@ panics iff !valid, before-writes
+//@ writes a[r*lda+c] for r in k..n, c in 0..nb ; tau[p] for p in 0..nb ; t[r*ldt+c] for r in 0..nb, c in 0..nb ; y[r*ldy+c] for r in 0..n, c in 0..nb
+
+//@ func Implementation.Dgehrd props: C03 C07(safety)
+//@ valid n >= 0 && iloihi(n, ilo, ihi) && lda >= max(1, n) && (lwork >= max(1, n) || lwork == -1) && len(work) >= max(1, lwork) &&
+//@       (n == 0 || lwork == -1 || (ge(a, n, n, lda) && len(tau) == n-1))
+//@ panics iff !valid, before-writes
+//@ writes work[p] for p in 0..max(1, lwork) ; a[r*lda+c] for r in 0..ihi+1, c in ilo..n if lwork != -1 ; tau[p] for p in 0..n-1 if lwork != -1
+//@ loop 3: invariant ilo <= i && i < ihi
+
+// Dorgbr: a workspace query touches work[0] only and never looks at a or tau; invalid lengths of a or tau
+// panic before any write (both since the fixes "Dorgbr answers a workspace query without slicing a" and
+// "Dorgbr checks the lengths of a and tau before writing to work").
+//@ func Implementation.Dorgbr props: C03 C07(safety)
+//@ let wantq = vect == lapack.GenerateQ
+//@ valid (vect == lapack.GenerateQ || vect == lapack.GeneratePT) && m >= 0 && n >= 0 && k >= 0 &&
+//@       (wantq ==> n <= m && n >= min(m, k)) && (!wantq ==> m <= n && m >= min(n, k)) &&
+//@       (lda >= max(1, n) || lwork == -1) && (lwork >= max(1, min(m, n)) || lwork == -1) && len(work) >= max(1, lwork) &&
+//@       (m == 0 || n == 0 || lwork == -1 || (ge(a, m, n, lda) && len(tau) >= ite(wantq, min(m, k), min(n, k))))
+//@ panics iff !valid, before-writes
+//@ writes work[p] for p in 0..max(1, lwork) ; work[p] for p in 0..len(work) if lwork != -1 ; a[r*lda+c] for r in 0..m, c in 0..n if lwork != -1
+
+//@ func Implementation.Dsyev props: C03 C07(safety)
+//@ valid (jobz == lapack.EVNone || jobz == lapack.EVCompute) && flagUL(uplo) && n >= 0 && lda >= max(1, n) &&
+//@       (lwork >= max(1, 3*n-1) || lwork == -1) && len(work) >= max(1, lwork) &&
+//@       (n == 0 || lwork == -1 || (ge(a, n, n, lda) && len(w) >= n))
+//@ panics iff !valid, before-writes
+//@ writes work[p] for p in 0..max(1, lwork) ; work[p] for p in 0..len(work) if lwork != -1 && jobz == lapack.EVCompute && uplo == blas.Lower ;
+//@        a[r*lda+c] for r in 0..n, c in 0..n if lwork != -1 && (jobz == lapack.EVCompute || (uplo == blas.Upper && c >= r) || (uplo == blas.Lower && c <= r)) ;
+//@        w[p] for p in 0..n if lwork != -1
+//@ floats: ieee
+//@ option nan-axioms
